@@ -23,8 +23,13 @@ func (obj List) Append(b []byte) []byte {
 	return printer.Append(b, obj, 0)
 }
 
-// Simplify the Object into a []any.
+// Simplify the Object into a []any or, if the list is an association list
+// of conses with string keys as SimpleObject builds for a map, into a
+// map[string]any.
 func (obj List) Simplify() any {
+	if m := obj.simplifyAssoc(); m != nil {
+		return m
+	}
 	out := make([]any, len(obj))
 	for i, o := range obj {
 		if o == nil {
@@ -34,6 +39,30 @@ func (obj List) Simplify() any {
 		}
 	}
 	return out
+}
+
+func (obj List) simplifyAssoc() map[string]any {
+	if len(obj) == 0 {
+		return nil
+	}
+	for _, o := range obj {
+		pair, ok := o.(List)
+		if !ok || len(pair) != 2 {
+			return nil
+		}
+		if _, ok = pair[0].(String); !ok {
+			return nil
+		}
+		if _, ok = pair[1].(Tail); !ok {
+			return nil
+		}
+	}
+	m := make(map[string]any, len(obj))
+	for _, o := range obj {
+		pair := o.(List)
+		m[string(pair[0].(String))] = pair[1].Simplify()
+	}
+	return m
 }
 
 // Equal returns true if this Object and the other are equal in value.
